@@ -122,6 +122,7 @@ def predicates(ctx, fcst, obs, ts, w, ds, desc):
     keep = [d for d in auc.dims]
     labels = [list(auc[d].values) for d in keep]
     nonneg = w is None or bool((np.nan_to_num(np.asarray(w.values, float)) >= 0).all())
+    in_range = bool((np.nan_to_num(np.asarray(fcst.values, float)) >= 0).all())     # "= 1 at t = 0" speaks about forecasts in [0,1]
     for combo in itertools.product(*labels):
         sel = dict(zip(keep, combo))
         cells = cells_of(fcst, obs, w, keep, sel)
@@ -144,7 +145,7 @@ def predicates(ctx, fcst, obs, ts, w, ds, desc):
                 fin = v[~np.isnan(v)]
                 if len(fin) not in (0, len(v)) or (len(fin) > 1 and (np.diff(fin) > 1e-12).any()):
                     ctx.violation(f"{name} is not non-increasing in the threshold", c2, "non-increasing", v.tolist())
-                if len(fin) and ts[0] == 0 and abs(fin[0] - 1) > 1e-12:
+                if len(fin) and ts[0] == 0 and in_range and abs(fin[0] - 1) > 1e-12:
                     ctx.violation(f"{name} is not 1 at threshold 0", c2, 1.0, float(fin[0]))
             if not math.isnan(a) and not (-1e-12 <= a <= 1 + 1e-12):
                 ctx.violation("AUC outside [0,1]", c2, "[0,1]", a)
